@@ -586,6 +586,11 @@ func parseListen(cfg map[string]string, cs map[string]CertSource, readTimeout, w
 	if csName == "" && l.Proto == "grpcs" {
 		return Listen{}, fmt.Errorf("proto 'grpcs' requires cert source")
 	}
+	// the https side of the listener terminates TLS: without a
+	// certificate source every handshake would panic on a nil TLS config
+	if csName == "" && l.Proto == "https+tcp+sni" {
+		return Listen{}, fmt.Errorf("proto 'https+tcp+sni' requires cert source")
+	}
 	if cs[csName].Type == "vault-pki" && !l.StrictMatch {
 		// Without StrictMatch the first issued certificate is used for all
 		// subsequent requests, even if the common name doesn't match.
